@@ -199,11 +199,18 @@ def solved_case(draw):
                               horizon=(0, 6), tols=('1e-6',), user_t=(False, True)))
     spec['fmt'] = draw(st.sampled_from([None, '%.5g', '%.3f', '%r', '%.12e', '%s']))
     spec['reduction'] = draw(st.booleans())
+    # the horizon is given in the text, or set on the solver (then the text states another one, which is overridden)
+    spec['text_maxtime'] = draw(st.sampled_from([None, None, 0, 3, 9, 1]))
     return spec
 
 
 def run_solved(spec):
-    o, es, ex = blocks.solve(spec, reduction=spec['reduction'])
+    if spec.get('text_maxtime') is not None:
+        tmp = dict(spec)
+        tmp['maxtime'] = spec['text_maxtime']
+        o, es, ex = blocks.solve(spec, reduction=spec['reduction'], text=blocks.render(tmp), horizon_attr=spec['maxtime'])
+    else:
+        o, es, ex = blocks.solve(spec, reduction=spec['reduction'])
     if o != 'ok':
         raise Reject('not solved: ' + o)
     fmt = spec['fmt']
